@@ -114,7 +114,12 @@ func Map(page mm.Page, frame mm.Frame, flags PageTableEntryFlag) *kernel.Error {
 // mapping and returns back the Page that corresponds to the region start.
 func MapRegion(frame mm.Frame, size uintptr, flags PageTableEntryFlag) (mm.Page, *kernel.Error) {
 	// Reserve next free block in the address space
-	size = (size + (mm.PageSize - 1)) & ^(mm.PageSize - 1)
+	roundedSize := (size + (mm.PageSize - 1)) & ^(mm.PageSize - 1)
+	if roundedSize < size {
+		// rounding up wrapped around; the request can never be satisfied
+		return 0, errEarlyReserveNoSpace
+	}
+	size = roundedSize
 	startPage, err := earlyReserveRegionFn(size)
 	if err != nil {
 		return 0, err
